@@ -210,10 +210,16 @@ func (run *checkRun) execute(verbose bool) int {
 			sem <- struct{}{}
 			defer func() { <-sem }()
 			var fi *FuncInfo
+			closure := 0
+			fkey := j.key
+			if i := strings.Index(fkey, "#"); i >= 0 {
+				fmt.Sscan(fkey[i+1:], &closure)
+				fkey = fkey[:i]
+			}
 			if j.emitted {
-				fi = w.LookupEmitted(j.key)
+				fi = w.LookupEmitted(fkey)
 			} else {
-				fi = w.LookupFunc(j.key)
+				fi = w.LookupFunc(fkey)
 			}
 			name := j.key
 			if j.emitted {
@@ -224,6 +230,9 @@ func (run *checkRun) execute(verbose bool) int {
 				return
 			}
 			c := w.contractFor(fi)
+			if closure > 0 {
+				c = w.Contracts[fmt.Sprintf("emitted.%s_closure%d", strings.ReplaceAll(fkey, ".", "_"), closure)]
+			}
 			if c == nil && !j.safety {
 				addUnit(&UnitResult{Unit: name, Kind: "func", Status: "unbound", Reason: "no contract found for function"})
 				return
@@ -231,6 +240,7 @@ func (run *checkRun) execute(verbose bool) int {
 			o := opts
 			o.Safety = j.safety
 			o.Events = j.emitted
+			o.Closure = closure
 			addUnit(w.VerifyFunc(fi, c, o))
 		}()
 	}
